@@ -1924,8 +1924,8 @@ func runStream(drv string, n int, out string) {
 		}
 	}
 	// 4f. artifacts recorded under unclean names on one side: created / deleted / modified are decided on the cleaned
-	//     paths (verdict only; oracle = the queue algorithm on the paths the names denote; no claim for MODIFY on an
-	//     unchanged or doubly-unclean entry, see oracleVerifyNormalised)
+	//     paths (verdict only; oracle = the queue algorithm on the paths the names denote, see oracleVerifyNormalised);
+	//     MODIFY on an entry recorded unclean is the regression class of F21
 	for vi := range uncleanVariants {
 		for _, form := range uncleanForms {
 			for dir := 0; dir < 4; dir++ {
@@ -1934,7 +1934,7 @@ func runStream(drv string, n int, out string) {
 					orc := oracleVerifyNormalised(in)
 					k := base
 					if orc == "" {
-						k += "/no-oracle(modify-on-unclean-entry)"
+						k += "/no-oracle"
 					} else {
 						k += "/" + orc
 					}
@@ -2004,6 +2004,8 @@ func main() {
 			var in vInput
 			var base string
 			switch {
+			case i >= 76 && i < 88:
+				in, base = genF21(i - 76)
 			case i >= 48 && i < 60:
 				in, base = requireEmptyCase(requireEmptyForms[i-48], i)
 			case i >= 60 && i < 76:
@@ -2036,7 +2038,7 @@ func main() {
 				in, base = genVCase(r.Fork())
 			}
 			orc, st, _ := oracleVerify(in)
-			if orc == "" && strings.HasPrefix(base, "unclean-material-names") {
+			if orc == "" && (strings.HasPrefix(base, "unclean-material-names") || strings.HasPrefix(base, "F21-")) {
 				if orc = oracleVerifyNormalised(in); orc != "" {
 					st.end = orc
 				}
